@@ -88,7 +88,10 @@ THEOREMS = [P + n for n in (
     # round 4: sessions (state that survives a call)
     'input_write_leaves', 'no_hidden_state_leaves', 'call_stateless', 'session_calls_independent',
     'session_call_at', 'session_order_irrelevant', 'session_sem_nonneg', 'inplace_write_breaks_later_call',
-    'coarse_memo_goes_stale')]
+    'coarse_memo_goes_stale',
+    # round 7: per-model specification of get_means (a model without values, any position)
+    'means_spec_model_local', 'means_spec_nan_iff', 'means_fixed_eq_spec', 'strictMean_filter_isSome',
+    'means_boot_eq_spec_of_whole_rows', 'means_spec_perm_equivariant')]
 RULE = ('cases come from one PRNG. dual/correct1d: variances in eighths, n_rdm/n_pattern None or '
         '2..30. contrast: m = 1..7. extract: covariance input 0/1/2/3-D (symmetric PSD in '
         'eighths, sometimes arbitrary), with/without the two noise-ceiling rows, 1..6 models. '
@@ -110,6 +113,11 @@ RULE = ('cases come from one PRNG. dual/correct1d: variances in eighths, n_rdm/n
         'as the evaluators do in 30 %) queried by 8..16 calls drawn from every public route, test type, two '
         'or more confidence levels, 1-D / 2-D / 3-D covariance inputs of the same model count, reload and '
         'rebuild, in random order with repeats. '
+        'Round 7: results in which ONE model (first / middle / last) has no value at all or values in some '
+        'samples / subjects only, for fixed, crossvalidation and every bootstrap cv_method: hand-built, and '
+        'the Result objects eval_fixed / crossval / eval_bootstrap_rdm / eval_bootstrap_pattern return for a '
+        'model list that contains a constant-RDM model under kendall (NaN) / tau-a (0); means, SEM, CI and '
+        'tests judged per model and under a model permutation. '
         'A case is non-trivial unless it is an uncorrected single number or has '
         'one model without variances; distinct = distinct full input.')
 BRANCHES = ['dual:plain', 'dual:small_sample', 'dual:one_n', 'c1d:both', 'c1d:pattern', 'c1d:rdm',
@@ -137,7 +145,11 @@ BRANCHES = ['dual:plain', 'dual:small_sample', 'dual:one_n', 'c1d:both', 'c1d:pa
             'session:ttest', 'session:bootstrap', 'session:ranksum', 'session:fixed', 'session:late_count',
             'session:evals_2d_f64', 'session:nc_per_sample', 'session:repeat', 'session:two_levels',
             'session:after_extract_1d', 'session:after_test_noise_bootstrap', 'session:after_reload',
-            'session:late_reload_sem', 'session:ttest_then_bootstrap_nc']
+            'session:late_reload_sem', 'session:ttest_then_bootstrap_nc',
+            # round 7: one model without (or with only some) values
+            'nan-model:first:fixed', 'nan-model:first:crossval', 'nan-model:first:boot', 'nan-model:other',
+            'nan-model:all', 'nan-model:partial', 'nan-model:evaluator:fixed', 'nan-model:evaluator:crossval',
+            'nan-model:evaluator:bootstrap', 'nan-model:kendall', 'nan-model:tau-a']
 ASSUMPTIONS = [
     'numpy float64 evaluation of the closed-form formulas is within 1e-9 relative of the exact value',
     'scipy.stats.t.cdf / t.ppf (contract: monotone, F(0)=1/2, range [0,1]) are applied by the '
@@ -270,10 +282,12 @@ def _gen_evals(rng, nB, m, shape, nan_rows=True, nan_folds=True, den=16, lo=-8, 
     return a
 
 
-def _gen_result(rng, tier):
-    m = rng.randint(1, 5)
+def _gen_result(rng, tier, force_cv=None, m_min=1):
+    m = max(rng.randint(1, 5), m_min)
     cv = rng.choice(['fixed', 'crossvalidation', 'bootstrap', 'bootstrap_rdm', 'bootstrap_pattern',
                      'bootstrap_crossval', 'dual_bootstrap'])
+    if force_cv is not None:
+        cv = force_cv
     if cv in ('fixed', 'crossvalidation'):
         nB, shape = 1, [rng.randint(2, 7)]
         ev = _gen_evals(rng, nB, m, shape, nan_rows=False)
@@ -397,6 +411,103 @@ def _gen_evaluator(rng, tier):
             'N': rng.randint(6, 10), 'seed': rng.randint(0, 10 ** 6)}
 
 
+NAN_POS = ('first', 'middle', 'last')
+NAN_CV = ('fixed', 'crossvalidation', 'boot')
+
+
+def _gen_nan_model(rng, tier, k):
+    """round 7: a hand-built Result in which ONE model (first / middle / last) has no value at all or
+    values in some samples (bootstrap) / subjects (fixed, crossvalidation) only.  The combination is
+    taken from the running index so that every (position, cv_method, all / partly) is met in every run."""
+    pos, cvk, kind = NAN_POS[k % 3], NAN_CV[(k // 3) % 3], ('all', 'partial')[(k // 9) % 2]
+    cv = cvk if cvk != 'boot' else rng.choice(['bootstrap', 'bootstrap_rdm', 'bootstrap_pattern',
+                                                'bootstrap_crossval', 'dual_bootstrap'])
+    case = _gen_result(rng, tier, force_cv=cv, m_min=3 if pos == 'middle' else 2)
+    ev = _arr(case['evals'])
+    nB, m = ev.shape[:2]
+    j = {'first': 0, 'middle': rng.randint(1, m - 2) if m >= 3 else 0, 'last': m - 1}[pos]
+    if kind == 'all':
+        ev[:, j] = np.nan
+    elif nB == 1:
+        n = ev.shape[2]
+        for sidx in rng.sample(range(n), rng.randint(1, n - 1)):
+            ev[0, j, sidx] = np.nan
+    else:
+        for r in rng.sample(range(nB), rng.randint(1, nB - 1)):
+            ev[r, j] = np.nan
+    case['evals'] = _lst(ev)
+    case['nan_model'] = {'pos': pos, 'index': j, 'kind': kind, 'how': 'hand-built'}
+    return case
+
+
+NAN_EVALUATORS = ('fixed', 'crossval', 'bootstrap_rdm', 'bootstrap_pattern')
+
+
+def _nan_source_run(src):
+    """the real evaluator on a model list that contains one constant-RDM model (rank correlations of a
+    constant vector are undefined: 'kendall' gives NaN in every subject / sample, 'tau-a' gives 0)"""
+    import rsatoolbox.inference as rcrossval
+    data = RDMs(np.array(src['data'], dtype=float))
+    models = [ModelFixed(f'm{k}', np.array(v, dtype=float)) for k, v in enumerate(src['models'])]
+    state = np.random.get_state()
+    np.random.seed(src['seed'])
+    try:
+        with warnings.catch_warnings():
+            warnings.simplefilter('ignore')
+            if src['which'] == 'fixed':
+                r = revaluate.eval_fixed(models, data, method=src['method'])
+            elif src['which'] == 'crossval':
+                tr, te, ce = rcrossval.sets_k_fold(data, k_pattern=1, k_rdm=src['k_rdm'], random=False)
+                r = revaluate.crossval(models, data, tr, te, ce, method=src['method'])
+            elif src['which'] == 'bootstrap_rdm':
+                r = revaluate.eval_bootstrap_rdm(models, data, method=src['method'], N=src['N'])
+            else:
+                r = revaluate.eval_bootstrap_pattern(models, data, method=src['method'], N=src['N'])
+    finally:
+        np.random.set_state(state)
+    return r
+
+
+def _gen_nan_evaluator(rng, tier, k):
+    """round 7: the same class through the real evaluators: a constant-RDM model first / in the middle /
+    last among 2..3 random models, 'kendall' (NaN) or 'tau-a' (0); the Result's own arrays become a
+    `result` case (judged like a hand-built one) and `run_impl` re-runs the evaluator (`source`)."""
+    pos, which = NAN_POS[k % 3], NAN_EVALUATORS[(k // 3) % 4]
+    method = 'kendall' if (k // 12) % 3 != 2 else 'tau-a'
+    n_cond, n_rdm = rng.randint(5, 6), rng.choice([4, 5, 6])
+    npair = n_cond * (n_cond - 1) // 2
+    others = [[rng.randint(1, 64) / 8 for _ in range(npair)] for _ in range(rng.randint(2, 3))]
+    j = {'first': 0, 'middle': rng.randint(1, len(others) - 1), 'last': len(others)}[pos]
+    models = others[:j] + [[1.0] * npair] + others[j:]
+    src = {'which': which, 'method': method, 'n_cond': n_cond, 'k_rdm': 2, 'N': rng.randint(5, 8),
+           'seed': rng.randint(0, 10 ** 6), 'models': models,
+           'data': [[rng.randint(1, 64) / 8 for _ in range(npair)] for _ in range(n_rdm)]}
+    r = _nan_source_run(src)
+    m = len(models)
+    var = None if r.variances is None else np.asarray(r.variances, dtype=float)
+    if var is not None and np.any(np.isnan(var)):
+        # an undefined covariance entry: numpy's NaN-propagating maximum / sqrt are IEEE facts outside the
+        # model (an ordered field); the rebuilt Result then carries no variances (means, permutation and the
+        # evaluator's own accessors are still judged; the oracle checks SEM NaN <-> variance NaN there)
+        var = None
+    kind = 'none' if var is None else f'{var.ndim}d'
+    perm = list(range(m))
+    rng.shuffle(perm)
+    allnan = bool(np.all(np.isnan(np.asarray(r.evaluations, dtype=float)[:, j])))
+    return {'op': 'result', 'cv_method': r.cv_method, 'evals': _lst(r.evaluations),
+            'var': None if var is None else _lst_nan(var), 'var_kind': kind, 'ci_pct': None,
+            'nc_rows': bool(var is not None and var.ndim >= 1 and var.shape[-1] == m + 2),
+            'noise_ceiling': _lst(r.noise_ceiling), 'dof': int(r.dof) if r.dof is not None else 1,
+            'n_rdm': r.n_rdm, 'n_pattern': r.n_pattern, 'perm': perm, 'source': src,
+            'nan_model': {'pos': pos, 'index': j, 'kind': 'all' if allnan else 'none', 'how': which,
+                          'method': method}}
+
+
+def _lst_nan(a):
+    """array -> nested list keeping NaN as float('nan') is not JSON; NaN -> None (`_arr` restores it)"""
+    return _lst(a)
+
+
 def _gen_extract(rng, tier):
     kind = rng.choice(['0d', '1d', '1d', '2d', '2d', '2d', '3d', '3d', '3d'])
     m = 1 if kind == '0d' else rng.randint(1, 6)
@@ -435,6 +546,12 @@ def generate(rng, tier):
         yield _gen_fixed(rng, tier)
     for _ in range(40 * mult):
         yield _gen_evaluator(rng, tier)
+    # round 7 (last in the stream: the earlier cases of a seed stay the ones of round 6)
+    nrng = random.Random('C06-nan-model-' + repr(rng.getstate()[1][:4]))
+    for k in range(36 if tier == 'quick' else 720):
+        yield _gen_nan_model(nrng, tier, k)
+    for k in range(36 if tier == 'quick' else 360):
+        yield _gen_nan_evaluator(nrng, tier, k)
 
 
 def search(rng, tier):
@@ -444,6 +561,9 @@ def search(rng, tier):
     k = 0
     while True:
         yield gens[k % len(gens)](rng, tier)
+        yield _gen_nan_model(rng, tier, k)
+        if k % 3 == 0:
+            yield _gen_nan_evaluator(rng, tier, k // 3)
         k += 1
         if k % 7 == 0:
             nr, npat = _opt_n(rng), _opt_n(rng)
@@ -639,6 +759,17 @@ def _evaluator_obs(case):
     return _catch(build)
 
 
+def _source_obs(case):
+    """round 7: the object the real evaluator returns (re-run, seeded): does it hold the case's arrays, and
+    what do its own accessors report"""
+    def build():
+        r = _nan_source_run(case['source'])
+        return {'same_evals': _lst(r.evaluations) == case['evals'], 'cv_method': r.cv_method,
+                'means': _canon(_catch(r.get_means)), 'sem': _canon(_catch(r.get_sem)),
+                'p_zero': _canon(_catch(r.test_zero)) if r.model_var is not None else None}
+    return _catch(build)
+
+
 def run_impl(case):
     op = case['op']
     if op == 'dual':
@@ -656,7 +787,10 @@ def run_impl(case):
         return _catch(f)
     if op in ('result', 'boot', 'ranksum'):
         tt = {'result': 't-test', 'boot': 'bootstrap', 'ranksum': 'ranksum'}[op]
-        return {'id': _result_obs(case, tt), 'perm': _result_obs(case, tt, case['perm'])}
+        out = {'id': _result_obs(case, tt), 'perm': _result_obs(case, tt, case['perm'])}
+        if case.get('source'):
+            out['source'] = _source_obs(case)
+        return out
     if op == 'fixed':
         return _fixed_obs(case)
     if op == 'evaluator':
@@ -829,6 +963,10 @@ def _result_model(case, a):
             return {'model_error': f'tail of the confidence interval {pc} != {_prop_cut(case)}'}
         out['ci'] = _un(a['ci']) if a.get('ci') is not None else None
         out['errorbars_ci'] = _un(a['eb_ci']) if a.get('eb_ci') is not None else None
+        if out['errorbars_ci'] is not None and any(
+                isinstance(v, float) and math.isnan(v) for row in out['errorbars_ci'] for v in row):
+            # as coded: Result.get_errorbars('ci…') rejects undefined limits (a model without values)
+            out['errorbars_ci'] = {'exc': 'ValueError'}
         out['errorbars_util_ci'] = _un(a['util_eb_ci'])
         routes = {}
         for route, key in ROUTE_DOF.items():
@@ -999,6 +1137,15 @@ def compare(case, impl, model):
             d = _cmp_obs(op, impl[w], model[w], w)
             if d:
                 return d
+        if case.get('source'):
+            so = impl.get('source')
+            if _is_exc(so) or not so.get('same_evals'):
+                return f'the evaluator run of the case is not reproducible: {str(so)[:120]}'
+            # (the evaluators record n_rdm / n_pattern after construction, so the SEM of their own object is
+            # the `evaluator` kind's business; the rebuilt Result's SEM is compared above)
+            d = first_diff(so['means'], model['id']['means'], RTOL, ATOL, 'source.means')
+            if d:
+                return d
         return None
     if op == 'evaluator':
         if 'exc' in impl:
@@ -1088,6 +1235,18 @@ def features(case, impl):
             if case.get('var') is not None and np.max(np.abs(np.asarray(case['var'], dtype=float))) < 1e-15:
                 br.append('result:tiny_var')
             f.update(ci_pct=case.get('ci_pct'), dof=case.get('dof'))
+            nm = case.get('nan_model')
+            if nm:
+                cvk = {'fixed': 'fixed', 'crossvalidation': 'crossval'}.get(case['cv_method'], 'boot')
+                undefined = nm['kind'] in ('all', 'partial')
+                if undefined:
+                    br.append(f'nan-model:first:{cvk}' if nm['pos'] == 'first' else 'nan-model:other')
+                    br.append('nan-model:' + nm['kind'])
+                if nm['how'] != 'hand-built':
+                    br.append('nan-model:evaluator:' + {'fixed': 'fixed', 'crossval': 'crossval'}.get(
+                        nm['how'], 'bootstrap'))
+                    br.append('nan-model:' + nm['method'])
+                f.update(nan_model_pos=nm['pos'], nan_model_kind=nm['kind'], nan_model_how=nm['how'])
         elif op == 'boot':
             br.append('boot:nc_per_sample' if nc_per_sample else 'boot:nc_scalar')
             if nan_rows:
@@ -1356,16 +1515,35 @@ def _oracle_result(case):
     # means are the NaN-aware averages
     want = _nan_aware_mean(ev, case.get('cv_method', 'bootstrap'))
     got = o_id['means']
-    if not _is_exc(got) and all(w is not None for w in want):
-        if first_diff(got, want, 1e-9, 1e-12):
-            return _bad('get_means is not the NaN-aware average of the evaluations', got, want,
-                        violated='means')
+    if _is_exc(got) or not isinstance(got, list) or len(got) != m:
+        return _bad('get_means does not report one mean per model', got, want, violated='means')
+    for jm in range(m):
+        # per model: a model without any value has mean NaN (None), every other model its own average
+        if (got[jm] is None) != (want[jm] is None) or \
+                (want[jm] is not None and not close(got[jm], want[jm], 1e-9, 1e-12)):
+            return _bad(f'get_means of model {jm} is not the NaN-aware average of its evaluations', got, want,
+                        violated='means', model=jm, undefined_models=[k for k in range(m) if want[k] is None])
+    if case.get('source'):
+        so = _source_obs(case)
+        if not _is_exc(so) and so.get('same_evals'):
+            if first_diff(so['means'], want, 1e-9, 1e-12):
+                return _bad('get_means of the evaluator\'s own Result is not the per-model NaN-aware average',
+                            so['means'], want, violated='means', route='evaluator')
     if op != 'result' or not has_var:
         return None
     # standard errors non-negative and equal to sqrt(model_var)
     sem = np.asarray(o_id['sem'], dtype=float)
-    if np.any(sem < 0) or np.any(np.isnan(sem)):
+    var_nan = _has_none(case['var']) or bool(np.any(np.isnan(np.asarray(case['var'], dtype=float))))
+    if np.any(sem < 0) or (np.any(np.isnan(sem)) and not var_nan):
         return _bad('negative / undefined standard error', o_id['sem'], violated='sem')
+    if var_nan:
+        # an undefined covariance entry (a model without values in a real evaluation): the standard error is
+        # undefined for exactly the models whose variance is; the exact-contrast checks below need numbers
+        mvv = np.asarray(o_id['model_var'], dtype=float)
+        if np.any(np.isnan(sem) != np.isnan(mvv)):
+            return _bad('standard error undefined for a model with a defined variance (or vice versa)',
+                        o_id['sem'], o_id['model_var'], violated='sem')
+        return None
     # every route to the standard-error bars reports that standard error on both sides
     for key in ('errorbars', 'errorbars_util'):
         eb = o_id.get(key)
